@@ -48,12 +48,19 @@ def san_env(flavour, wd, leaks=False):
                                'malloc_context_size=12' % (1 if leaks else 0, wd))
         env['UBSAN_OPTIONS'] = 'print_stacktrace=1:log_path=%s/san' % wd
         env['LSAN_OPTIONS'] = 'exitcode=97'
+    elif flavour == 'cov':
+        # the objects were compiled in a temporary directory that was renamed afterwards: redirect the .gcda files into the build directory
+        _p, bdir = build.ensure('cov')
+        env['GCOV_PREFIX'] = bdir
+        env['GCOV_PREFIX_STRIP'] = str(len([c for c in bdir.split('/') if c]))
     elif flavour == 'tsan':
         env['TSAN_OPTIONS'] = ('halt_on_error=0:second_deadlock_stack=1:log_path=%s/san:exitcode=66:history_size=4:'
                                'suppressions=%s/tsan.supp:report_signal_unsafe=0' % (wd, VERIF))
     return env
 
 def run_scenario(flavour, text, timeout=180, leaks=False, valgrind=None, keep=False, tag=None):
+    if os.environ.get('VERIF_COVERAGE') and not valgrind:
+        flavour = 'cov'            # tools/coverage.py: same workloads, gcov-instrumented library, verdicts ignored
     player, _ = build.ensure(flavour)
     _counter[0] += 1
     wd = os.path.join(run_dir(), 'c%d_%d' % (_counter[0], int(time.time() * 1e6) % 1000000))
@@ -127,7 +134,7 @@ def run_scenario(flavour, text, timeout=180, leaks=False, valgrind=None, keep=Fa
 def run_many(flavour, scenarios, workers=None, **kw):
     """scenarios: list of (tag, text). Returns list of Result in the same order."""
     workers = workers or int(os.environ.get('VERIF_JOBS', '16'))
-    build.ensure(flavour)
+    build.ensure('cov' if os.environ.get('VERIF_COVERAGE') else flavour)
 
     def one(ts):
         return run_scenario(flavour, ts[1], tag=ts[0], **kw)
